@@ -149,6 +149,68 @@ def nested_play(mid):
         mm.time = saved
 
 
+def check_edit_during_pass():
+    """A pass (iteration, play) is suspended, the file is edited, the pass is resumed.  The
+    property does not say which contents such a pass sees - those at its start or those at the
+    time of the edit - but it is the pass over ONE of them: no message twice, none skipped."""
+    import mido
+    out = []
+    tracks = [[(1, 11), (1, 12), (1, 13), (1, 14), (1, 15)], [(3, 21)]]
+    for label, edit in (('delete-before-cursor', lambda mid: mid.tracks[0].__delitem__(0)),
+                        ('insert-before-cursor', lambda mid: mid.tracks[0].insert(0, mk(1, 16))),
+                        ('delete-after-cursor', lambda mid: mid.tracks[0].__delitem__(3)),
+                        ('append', lambda mid: mid.tracks[0].append(mk(1, 17))),
+                        ('attribute-after-cursor', lambda mid: setattr(mid.tracks[0][3], 'time', 5)),
+                        ('remove-track', lambda mid: mid.tracks.__delitem__(1))):
+        for how in ('iterate', 'play'):
+            try:
+                mid = fresh(1, 480, tracks)
+                before = observe(fresh(1, 480, tracks), how)
+                if how == 'iterate':
+                    it = iter(mid)
+                    got = [next(it), next(it)]
+                    edit(mid)
+                    got += list(it)
+                    got = [(ident_of(m), m.time, type(m).__name__) for m in got]
+                    after = observe(mid, 'iterate')
+                else:
+                    import mido.midifiles.midifiles as mm
+                    from fractions import Fraction
+                    ft = c13.FakeTime(Fraction(1, 1000))
+                    saved = mm.time
+                    mm.time = ft
+                    try:
+                        got = []
+                        for k, m in enumerate(mid.play(meta_messages=True, now=ft.time)):
+                            got.append((ident_of(m), round(float(ft.now), 9)))
+                            if k == 1:
+                                edit(mid)
+                    finally:
+                        mm.time = saved
+                    after = observe_play_meta(mid)
+                    before = observe_play_meta(fresh(1, 480, tracks))
+            except Exception as e:
+                out.append(('edit-during-pass/%s/%s/raises' % (how, label), repr(e)))
+                continue
+            if got != before and got != after:
+                out.append(('edit-during-pass/%s/%s' % (how, label),
+                            'a %s suspended after two messages and resumed after the edit gave %s; the pass over the contents '
+                            'before the edit is %s, after it %s' % (how, _short(got), _short(before), _short(after))))
+    return out[:3]
+
+
+def observe_play_meta(mid):
+    import mido.midifiles.midifiles as mm
+    from fractions import Fraction
+    ft = c13.FakeTime(Fraction(1, 1000))
+    saved = mm.time
+    mm.time = ft
+    try:
+        return [(ident_of(m), round(float(ft.now), 9)) for m in mid.play(meta_messages=True, now=ft.time)]
+    finally:
+        mm.time = saved
+
+
 def replay_history(hist):
     import mido
     mid = mido.MidiFile(type=1, ticks_per_beat=480)
@@ -261,6 +323,9 @@ def worker(lines):
 
 
 def replay(case):
+    if case.get('edit_during_pass'):
+        v = check_edit_during_pass()
+        return v and '%s: %s' % v[0]
     if 'fixed' in case:
         tracks = [[tuple(x) for x in t] for t in case['fixed']]
         for op in ('iter_nested', 'play'):
@@ -308,6 +373,9 @@ def run(ctx):
                 ctx.violation('fileobj/stale/%s-during-other-observation' % op, {'fixed': tracks},
                               '%s interleaved with another observation gave %s, a fresh file gives %s' % (
                                   op, _short(got), _short(ref)))
+    for key, msg in check_edit_during_pass():
+        ctx.violation('fileobj/' + key, {'edit_during_pass': True}, msg)
+    ctx.replayed += 12
     ctx.exhaustive = True
     ctx.constants = {'plans': plans}
     ctx.assumptions += ['observations are compared with a freshly built MidiFile of identical contents and with the specification value (merge order)',
